@@ -1499,8 +1499,16 @@ func (f *frame) siteAsserts(kind, rel, when string, args, results []*sym, st *st
 		t := e.boolExpr(sc.E)
 		vc.oblige(fmt.Sprintf("site@%s#%d", mangleKeep(sc.Callee), ord), label, reach, t, pos, sc.Src, sc.Props)
 		// assert-then-assume: what has been asserted here may be used by everything that follows (each obligation's
-		// script contains only the commands emitted before it, so an assertion never helps to prove itself)
-		vc.assume(reach, t)
+		// script contains only the commands emitted before it, so an assertion never helps to prove itself) — but only
+		// when the assertion is itself checked in this run: in a per-property check an assertion that belongs to
+		// another property is not, and assuming it would let its failure hide this property's
+		ap := sc.Props
+		if ap == nil {
+			ap = c.Props
+		}
+		if vc.w.curProp == "" || hasProp(ap, vc.w.curProp) {
+			vc.assume(reach, t)
+		}
 	}
 }
 
@@ -1576,7 +1584,9 @@ func (f *frame) interfere(st *state, reach string) {
 	for _, b := range d.Params {
 		args = append(args, &EIdent{b.Name})
 		if _, ok := top.names[b.Name]; !ok {
-			fail("interference %s: parameter %s is not a name of %s", d.Name, b.Name, vc.fnName)
+			if _, captured := top.names["&"+b.Name]; !captured {
+				fail("interference %s: parameter %s is not a name of %s", d.Name, b.Name, vc.fnName)
+			}
 		}
 	}
 	for k, v := range top.names {
